@@ -12,8 +12,8 @@ CONSTANTS
   PeerH = 0
   BugClearAlways = FALSE
   BugKeepOld = FALSE
-  QuirkLenDrift = TRUE
-  QuirkNoDiscardRecheck = TRUE
+  QuirkLenDrift = FALSE
+  QuirkNoDiscardRecheck = FALSE
   Depth = 40
   WitnessKind = "none"
 INVARIANT Emit
